@@ -38,6 +38,12 @@ type edRec struct {
 	Panic  string    `json:"panic"`
 }
 
+// genSolid: the bounding box of the mesh with a ball cut out of one corner
+func genSolid(m *model3d.Mesh) model3d.Solid {
+	box := model3d.NewRect(m.Min(), m.Max())
+	return &model3d.SubtractedSolid{Positive: box, Negative: &model3d.Sphere{Center: m.Max(), Radius: 0.8}}
+}
+
 func init() {
 	register("c09-editors", func(a args) {
 		rng := rand.New(rand.NewSource(int64(a.int("seed", 1))))
@@ -83,6 +89,21 @@ func init() {
 				return nil
 			},
 			"AddMesh(self-copy)": func(m *model3d.Mesh) *model3d.Mesh { m.AddMesh(m.Copy()); return nil },
+			// meshes the library's generators hand out after their own in-place vertex rewrites (the input mesh
+			// only supplies the solid: its bounding box with a sphere cut out)
+			"MarchingCubesInterior(iters=0)": func(m *model3d.Mesh) *model3d.Mesh {
+				res, _ := model3d.MarchingCubesInterior(genSolid(m), 0.5, 0)
+				return res
+			},
+			"MarchingCubesInterior(iters=2)": func(m *model3d.Mesh) *model3d.Mesh {
+				res, _ := model3d.MarchingCubesInterior(genSolid(m), 0.5, 2)
+				return res
+			},
+			"MarchingCubesSearch": func(m *model3d.Mesh) *model3d.Mesh { return model3d.MarchingCubesSearch(genSolid(m), 0.5, 3) },
+			"DualContouring(Repair)": func(m *model3d.Mesh) *model3d.Mesh {
+				dc := &model3d.DualContouring{S: model3d.SolidSurfaceEstimator{Solid: genSolid(m)}, Delta: 0.5, Repair: true, Clip: true}
+				return dc.Mesh()
+			},
 		}
 		var names []string
 		for k := range editors {
